@@ -29,8 +29,8 @@ def mkinv(*specs):
 
 POOLS = {
     int: [None, 0, 7, -12345, 100000],
-    Decimal: [None, D('0'), D('1.5'), D('-22.125'), D('1000'), D('-0.001'), D('3.10')],
-    str: [None, '', 'x', 'hello world', 'a much longer string value'],
+    Decimal: [None, D('0'), D('1.5'), D('-22.125'), D('1000'), D('-0.001'), D('3.10'), D('1.0'), D('1.00'), D('0.000')],      # equal values written with different numbers of digits, one after the other
+    str: [None, '', 'x', 'hello world', 'a much longer string value', 'Cafe ', '  indented'],      # white space that belongs to the value
     datetime.date: [None, date(2024, 1, 5), date(1999, 12, 31)],
     bool: [None, True, False],
     set: [None, set(), {'a'}, {'tag-one', 'b', 'zz'}],
@@ -243,6 +243,14 @@ def check(case):
                     if not (isinstance(v2, inventory.Inventory) and len(v2.get_positions()) > j) and f2.strip():
                         return ('continuation records of an expanded row are empty in the columns that have nothing more to show (CSV)', {**info, 'column': ci2}, f2, '')
             ri += k
+    # strings and the NULL placeholder are written as they are: white space inside them is part of the value, not padding
+    if not expand:
+        for r, rec in zip(rows, recs[1:]):
+            for v, t, f in zip(r, coltypes, rec):
+                if v is None and f != null:
+                    return ('CSV shows the configured NULL placeholder unchanged', {**info, 'value': None}, f, null)
+                if t is str and v is not None and f != v:
+                    return ('a CSV field of a string column holds exactly the string', {**info, 'value': repr(v)}, f, v)
     # same formatted values as the text cells (padding aside) for single-line scalar cells
     if not spaced and not expand:
         for r, rec, line in zip(rows, recs[1:], body):
@@ -260,7 +268,7 @@ def cases(tier, seed):
     optsets = []
     for boxed, uni, spaced, expand, narrow in itertools.product([False, True], repeat=5):
         optsets.append(dict(boxed=boxed, unicode=uni, spaced=spaced, expand=expand, narrow=narrow))
-    extra = [dict(nullvalue='NULL'), dict(nullvalue='-', listsep=' ; '), dict(listsep=', ', boxed=True)]
+    extra = [dict(nullvalue='NULL'), dict(nullvalue='-', listsep=' ; '), dict(listsep=', ', boxed=True), dict(nullvalue=' - ')]
     for t in TYPES:
         n = len(POOLS[t])
         for o in optsets + extra:
@@ -275,7 +283,7 @@ def cases(tier, seed):
     for _ in range(300 if tier == 'quick' else 5000):
         k = rng.randint(1, 5)
         ct = tuple(rng.choice(TYPES) for _ in range(k))
-        rows = tuple(tuple(rng.randrange(7) for _ in range(k)) for _ in range(rng.randint(0, 6)))
+        rows = tuple(tuple(rng.randrange(10) for _ in range(k)) for _ in range(rng.randint(0, 6)))
         o = dict(rng.choice(optsets))
         if rng.random() < 0.3: o['nullvalue'] = rng.choice(['', 'NULL', '-'])
         if rng.random() < 0.3: o['listsep'] = rng.choice(['  ', ', ', ' | '])
